@@ -69,6 +69,11 @@ def r1(ctx):
         elif o.kind == "return" and isinstance(o.value, Tup) and len(o.value.items) == 4:
             h, p, r, s = o.value.items
             from ..values import concat
+            if host_t is not True:
+                # the code returned without ever establishing that there is a host: the empty-host class is accepted
+                seen.add("no-host")
+                ctx.ob(f"{PU}:no-host", False, "a URL without a host (empty hostname, e.g. 'ws://:8080/x') is accepted instead of refused with ValueError: "
+                       f"returns ({h!r}, {p!r}, ...)", loc, {"path": path_text(o)})
             # a fact the code never tested on this path covers both of its values: the result must be right for each
             subcases = [(pt_, pa_, qu_) for pt_ in ([port_t] if port_t is not None else [True, False])
                         for pa_ in ([path_t] if path_t is not None else [True, False])
